@@ -271,10 +271,18 @@ ApplyRow(g, row, w) ==
 \* the write clause over the whole row table: [err, g, out, at]
 \*   err: g = the graph when the failing row (index at) started, i.e. with rows 1..at-1 applied
 RECURSIVE Run(_, _, _, _, _)
+\*   pg: the same, plus what a failing SET row leaves when its items are applied one after the other
+\*       (all right-hand sides evaluate first; only an item refused at APPLY time - a unique constraint - can
+\*       fail after earlier items of the row were written).  pg = g everywhere else.
+PartialSet(g, row, w) ==
+    IF w.kind # "set" THEN g
+    ELSE LET vals == [j \in DOMAIN w.items |-> ItemVals(w.items[j], row, g)] IN
+         IF \E j \in DOMAIN vals : AnyErr(vals[j]) THEN g
+         ELSE ApplyItems(g, row.n, w.items, vals, 1).g
 Run(g, out, rows, j, w) ==
-    IF j > Len(rows) THEN [err |-> FALSE, g |-> g, out |-> out, at |-> 0]
+    IF j > Len(rows) THEN [err |-> FALSE, g |-> g, pg |-> g, out |-> out, at |-> 0]
     ELSE LET r == ApplyRow(g, rows[j], w) IN
-         IF r.err THEN [err |-> TRUE, g |-> g, out |-> <<>>, at |-> j]
+         IF r.err THEN [err |-> TRUE, g |-> g, pg |-> PartialSet(g, rows[j], w), out |-> <<>>, at |-> j]
          ELSE Run(r.g, out \o r.out, rows, j + 1, w)
 
 RetVal(item, row, g) ==
@@ -284,7 +292,7 @@ RetRows(g, out, ret) ==
 
 Exec(g, st, rows) ==
     LET r == Run(g, <<>>, rows, 1, st.w) IN
-    [err |-> r.err, g |-> r.g, at |-> r.at, rows |-> IF r.err THEN <<>> ELSE RetRows(r.g, r.out, st.ret)]
+    [err |-> r.err, g |-> r.g, pg |-> r.pg, at |-> r.at, rows |-> IF r.err THEN <<>> ELSE RetRows(r.g, r.out, st.ret)]
 
 \* ------------------------------------------------------------------ isomorphism that fixes the old entities
 Injections(S, T) == {f \in [S -> T] : \A a, b \in S : a # b => f[a] # f[b]}
@@ -349,6 +357,13 @@ KF_C05_RowByRowApplyR(r, err, Gn) ==
     /\ r.err /\ err
     /\ r.at > 1 /\ r.g # G                  \* only differs from the ideal action then
     /\ Iso(r.g, Gn, G)
+    /\ G' = Gn
+\* KF_C05_SetItemsApplied: inside ONE row, SET applies its items one after the other; when a later item is
+\* refused at apply time (unique constraint), the earlier items of that row - and the rows before it - stay.
+KF_C05_SetItemsAppliedR(r, err, Gn) ==
+    /\ r.err /\ err
+    /\ r.pg # r.g                            \* only differs from the row-level deviation then
+    /\ Iso(r.pg, Gn, G)
     /\ G' = Gn
 KF_C05_RowByRowApply(st, rows, err, Gn) ==
     /\ st.kind = "write"
